@@ -612,6 +612,14 @@ func (p *packerV4) pack(options ...*bgp.MarshallingOption) []*bgp.BGPMessage {
 
 	loop := func(attrsLen int, paths []*Path, cb func([]bgp.PathNLRI)) {
 		max := maxNLRIs(attrsLen)
+		if max < 1 {
+			// The budget is a worst case (5 octets per NLRI, attribute lengths
+			// before the 2-octet AS conversion) and can be zero or negative for
+			// a route that still fits, or for one that does not fit at all.
+			// Emit one route per message: the sender serialises it under the
+			// session's real limit, and skips and reports it if it is too long.
+			max = 1
+		}
 		var nlris []bgp.PathNLRI
 		for {
 			nlris, paths = split(max, paths)
